@@ -353,6 +353,80 @@ theorem nsuper_retype_none {l : List Adm} {id : Str} (t : Bool) (h : ∀ e ∈ l
   exact map_eq_self (fun e he => setTy_other (h e he))
 
 
+/-! ## provisioner uids and cursors -/
+
+theorem eraseId_eq_filter {id : Str} {l : List (Str × Prov)} (nd : (l.map (·.2.id)).Nodup) :
+    PColl.eraseId id l = l.filter (fun e => decide (e.2.id ≠ id)) := by
+  induction l with
+  | nil => rfl
+  | cons x r ih =>
+    simp only [List.map_cons, List.nodup_cons, List.mem_map] at nd
+    unfold PColl.eraseId
+    split
+    · rename_i hx
+      rw [List.filter_cons_of_neg (by simp [hx])]
+      symm; rw [List.filter_eq_self]; intro e he
+      have : e.2.id ≠ id := fun h => nd.1 ⟨e, he, by rw [h, hx]⟩
+      simpa using this
+    · rename_i hx
+      rw [List.filter_cons_of_pos (by simpa using hx), ih nd.2]
+
+theorem hexd_ge (n : Nat) : 48 ≤ hexd n := by unfold hexd; split <;> omega
+
+theorem hex8_length (n : Nat) : (hex8 n).length = 8 := by simp [hex8]
+
+theorem hex8_ge (n : Nat) : ∀ c ∈ hex8 n, 48 ≤ c := by
+  intro c hc
+  simp only [hex8, List.mem_cons, List.not_mem_nil, or_false] at hc
+  rcases hc with rfl | rfl | rfl | rfl | rfl | rfl | rfl | rfl <;> exact hexd_ge _
+
+/-- nothing of length `n` made of bytes ≥ '0' sorts below `n` zeros -/
+theorem not_lt_zeros : ∀ (n : Nat) (u : Str), u.length = n → (∀ c ∈ u, 48 ≤ c) → slt u (List.replicate n 48) = false
+  | 0, u, hl, _ => by
+    have : u = [] := List.length_eq_zero_iff.mp hl
+    subst this; simp [slt]
+  | n + 1, [], hl, _ => by simp at hl
+  | n + 1, c :: u, hl, hc => by
+    have ih := not_lt_zeros n u (by simpa using hl) (fun x hx => hc x (List.mem_cons_of_mem _ hx))
+    have hc0 : 48 ≤ c := hc c List.mem_cons_self
+    simp only [slt, decide_eq_false_iff_not, List.replicate_succ, List.cons_lt_cons_iff] at ih ⊢
+    rintro (h | ⟨rfl, h⟩)
+    · omega
+    · exact ih h
+
+theorem pad40_trim0 (u : Str) (hl : u.length = 40) : PColl.pad40 (PColl.trim0 u) = u := by
+  have gen : ∀ (u : Str), List.replicate (u.length - (u.dropWhile (· = 48)).length) 48 ++ u.dropWhile (· = 48) = u := by
+    intro u
+    induction u with
+    | nil => rfl
+    | cons c r ih =>
+      by_cases hc : c = 48
+      · have hle : (r.dropWhile (· = 48)).length ≤ r.length := (List.dropWhile_sublist _).length_le
+        simp only [List.dropWhile_cons, hc, decide_true, if_true, List.length_cons]
+        have : r.length + 1 - (r.dropWhile (· = 48)).length = (r.length - (r.dropWhile (· = 48)).length) + 1 := by omega
+        rw [this, List.replicate_succ, List.cons_append, ih]
+      · simp [List.dropWhile_cons, hc]
+  unfold PColl.pad40 PColl.trim0
+  have := gen u
+  rw [hl] at this
+  exact this
+
+theorem trim0_eq_nil {u : Str} (h : PColl.trim0 u = []) : u = List.replicate u.length 48 := by
+  unfold PColl.trim0 at h
+  induction u with
+  | nil => rfl
+  | cons c r ih =>
+    by_cases hc : c = 48
+    · simp only [List.dropWhile_cons, hc, decide_true, if_true] at h
+      rw [List.length_cons, List.replicate_succ, ← ih h, hc]
+    · simp [List.dropWhile_cons, hc] at h
+
+theorem normLimit_pos (limit : Int) : 1 ≤ normLimit limit := by
+  unfold normLimit; split
+  · omega
+  · split <;> omega
+
+
 /-! ## paging -/
 
 section Paging
